@@ -1,6 +1,7 @@
 import AkVerif.Gen.C15
 import AkVerif.Lemmas.SqlFilter
 import AkVerif.Lemmas.SqlFilterText
+import AkVerif.Lemmas.SqlFilterSort
 /-!
 # C15 — SQL filters select exactly the intended rows; values are always bound
 
@@ -106,6 +107,18 @@ theorem placeholders (pct : Bool) (st : Stmt) (call : Call) (p : Prepared)
     p.text.count (marker pct) = p.params.length :=
   prepare_count h hf hs hg ho
 
+/-- Matching order. The text of a conjunction is the texts of its clauses from left to right
+(`renders`, `joinSep`), and so on inside OR groups; evaluating a clause consumes, from the front
+of the parameter list, exactly as many values as the text of that clause has placeholder marks —
+for every clause and sub-clause, whatever the parameter list. So the k-th mark of the text is
+evaluated with the k-th bound value. -/
+theorem placeholders_in_order (pct : Bool) (row : Row) (w : Where) (t : Str) (ps : List Value)
+    (v : Tri) (rest : List Value) (hr : render pct w = .ok t)
+    (hf : ∀ f ∈ whereFields w, f.count (marker pct) = 0) (hs : semW row w ps = some (v, rest)) :
+    ∃ used, ps = used ++ rest ∧ used.length = t.count (marker pct) := by
+  obtain ⟨used, h1, h2⟩ := semW_consumes row w ps v rest hs
+  exact ⟨used, h1, by rw [h2, render_count pct w t hr hf]⟩
+
 /-- Forgetting every value of a call (keeping field names, operations, `None`-ness, types and the
 lengths of lists) changes neither the outcome nor the AST nor one character of the text: only the
 bound values change, position by position. -/
@@ -131,6 +144,124 @@ theorem none_ignored (pct : Bool) (st : Stmt) (args : List (Option Cond)) (kw : 
     prepare pct st { args := none :: args, kwargs := kw } = prepare pct st { args := args, kwargs := kw } ∧
     prepare pct st { args := args ++ [none], kwargs := kw } = prepare pct st { args := args, kwargs := kw } := by
   constructor <;> simp [prepare, filters]
+
+/-- Keyword filters may be written in any order: the prepared statement (AST, text and bound
+values) is the same for every permutation of the keyword arguments (Python guarantees distinct
+keyword names), at top level and inside an OR group. -/
+theorem kwargs_order (pct : Bool) (st : Stmt) (args : List (Option Cond)) (cs : List Cond)
+    (kw kw' : List (Str × Arg)) (hp : kw.Perm kw') (hn : (kw.map (·.1)).Nodup) :
+    prepare pct st { args := args, kwargs := kw } = prepare pct st { args := args, kwargs := kw' } ∧
+    mkCond (.or cs kw) = mkCond (.or cs kw') := by
+  constructor <;> simp [prepare, filters, mkCond, sortKw_perm kw kw' hp hn]
+
+/-- SQL's `IN` as the model (and the caller's intent) reads it: true iff some member equals the
+cell, false iff every member is different and none is NULL (the empty list included) — hence
+`NOT IN` over a list that contains NULL never selects a row, and a NULL cell is never `IN` nor
+`NOT IN` a non-empty list. -/
+theorem in_semantics (x : Value) (vs : List Value) :
+    (inSem x vs = .tt ↔ ∃ v ∈ vs, cmp3 .eq x v = .tt) ∧
+    (inSem x vs = .ff ↔ ∀ v ∈ vs, cmp3 .eq x v = .ff) ∧
+    (Value.null ∈ vs → (inSem x vs).not ≠ .tt) ∧
+    (vs ≠ [] → inSem .null vs = .unk) := by
+  refine ⟨inSem_tt_iff x vs, inSem_ff_iff x vs, ?_, ?_⟩
+  · intro h hn
+    have := inSem_null_mem x vs h
+    cases hv : inSem x vs <;> simp [hv, Tri.not] at hn this
+  · intro hne
+    have key : ∀ ws : List Value, inSem .null ws = .ff ∨ inSem .null ws = .unk := by
+      intro ws
+      induction ws with
+      | nil => exact Or.inl rfl
+      | cons w ws ih => right; rcases ih with h | h <;> simp [inSem, cmp3, h, Tri.or]
+    cases vs with
+    | nil => exact absurd rfl hne
+    | cons v vs => rcases key vs with h | h <;> simp [inSem, cmp3, h, Tri.or]
+
+/-- What a call returns. If `run` answers `res`, then the statement was prepared; every row of
+the table gives a value to every column expression of the clause (all of them written by the
+caller); the rows selected are exactly the rows of the table — in table order — on which every
+condition the caller wrote is true (`satisfied`, i.e. the right-hand side of `selects`); they are
+permuted by the model of SQLite's ORDER BY when an order was requested; and `res` is what the
+method (`list`, `one`, `one_or_none`) makes of that list. -/
+theorem returns_exactly (pct : Bool) (selectFrom : Str) (groupBy : Option Str) (order : Option OrderSpec)
+    (call : Call) (m : Method) (table : List Cells) (res : Option (List Cells))
+    (h : run pct selectFrom groupBy order call m table = .ok res) :
+    ∃ fields sel sorted,
+      (∀ f ∈ fields, f ∈ call.fields) ∧
+      (∀ r ∈ table, ∃ row, r.row? fields = some row) ∧
+      sel = table.filter (fun r =>
+        match r.row? fields with
+        | some row => satisfied row call
+        | none => false) ∧
+      (order = none → sorted = sel) ∧ (∀ o, order = some o → sortRows o sel = some sorted) ∧
+      sorted.Perm sel ∧ finish m sorted = .ok res := by
+  simp only [run, bind, Except.bind] at h
+  cases hp : prepare pct { selectFrom := selectFrom, groupBy := groupBy, orderBy := order.map orderText } call with
+  | error e => simp [hp] at h
+  | ok p =>
+    simp only [hp] at h
+    cases hsel : selectRows (wheresFields p.conj) p.conj p.params table with
+    | none => simp [hsel] at h
+    | some sel =>
+      simp only [hsel] at h
+      have hfilter := selectRows_eq _ _ _ table sel hsel
+      have hrows := selectRows_rows _ _ _ table sel hsel
+      have hsat : sel = table.filter (fun r =>
+          match r.row? (wheresFields p.conj) with
+          | some row => satisfied row call
+          | none => false) := by
+        rw [hfilter]
+        apply List.filter_congr
+        intro r _
+        cases r.row? (wheresFields p.conj) with
+        | none => rfl
+        | some row => simp only [satisfied, selects_eval pct _ call p hp row]
+      cases order with
+      | none =>
+        simp only [] at h
+        exact ⟨_, sel, sel, prepare_fields hp, hrows, hsat, fun _ => rfl, (fun o ho => by cases ho),
+          List.Perm.refl _, h⟩
+      | some o =>
+        simp only [] at h
+        cases hso : sortRows o sel with
+        | none => simp [hso] at h
+        | some sorted =>
+          simp only [hso] at h
+          exact ⟨_, sel, sorted, prepare_fields hp, hrows, hsat, (fun ho => by cases ho),
+            (fun o' ho' => by cases ho'; exact hso), sortRows_perm o sel sorted hso, h⟩
+
+/-- `satisfied` is the right-hand side of `selects` -/
+theorem satisfied_iff (row : Row) (call : Call) :
+    satisfied row call = true ↔
+      (∀ c, some c ∈ call.args → intended row c = some .tt) ∧
+      (∀ k a, (k, a) ∈ call.kwargs → intended row (.pair k a) = some .tt) := by
+  simp only [satisfied, decide_eq_true_eq, andAll_eq_tt]
+  constructor
+  · intro hall
+    constructor
+    · intro c hc
+      apply hall
+      rw [List.mem_append, mem_intendeds]
+      exact Or.inl ⟨c, by simpa using hc, rfl⟩
+    · intro k a hk
+      apply hall
+      rw [List.mem_append, mem_intendedKw]
+      exact Or.inr ⟨(k, a), hk, rfl⟩
+  · rintro ⟨h1, h2⟩ x hx
+    rw [List.mem_append, mem_intendeds, mem_intendedKw] at hx
+    rcases hx with ⟨c, hc, rfl⟩ | ⟨⟨k, a⟩, hk, rfl⟩
+    · exact h1 c (by simpa using hc)
+    · exact h2 k a hk
+
+/-- `list` returns the rows as they come, `one` succeeds iff exactly one row was selected,
+`one_or_none` (and `SqlMethodT.one_or_none`) iff at most one; otherwise `ValueError`. -/
+theorem methods (rows : List Cells) :
+    finish .list rows = .ok (some rows) ∧
+    (finish .one rows = (if rows.length = 1 then .ok (some rows) else .error (.py .valueError))) ∧
+    (finish .oneOrNone rows = (if rows.length = 0 then .ok none else if rows.length = 1 then .ok (some rows)
+      else .error (.py .valueError))) ∧
+    (finish .oneOrEmpty rows = (if rows.length ≤ 1 then .ok (some rows) else .error (.py .valueError))) := by
+  rcases rows with _ | ⟨r, _ | ⟨s, rest⟩⟩ <;> simp [finish]
 
 /-! Non-vacuity: a call with an OR group, an empty `IN`, `= None`, a keyword filter and a hostile
 value is prepared; its text and parameters are what the real code produces. -/
@@ -170,6 +301,29 @@ example : (prepare false exStmt exCall).map (fun p => sem exRow p.conj p.params)
 
 example : (prepare false exStmt { exCall with args := exCall.args.take 2, kwargs := [("a".toList, .list [.int 7])] }).map
     (fun p => sem exRow p.conj p.params) = .ok (some .tt) := by
+  decide +kernel
+
+private def exTable : List Cells :=
+  [[("id".toList, .int 1), ("a".toList, .int 7), ("b".toList, .text "B".toList), ("c".toList, .null)],
+   [("id".toList, .int 2), ("a".toList, .int 1), ("b".toList, .text "y".toList), ("c".toList, .text "it's".toList)],
+   [("id".toList, .int 3), ("a".toList, .null), ("b".toList, .text "z".toList), ("c".toList, .text "it's".toList)]]
+
+/-- `b NOT IN (…, NULL)` never holds (`in_semantics`): the example call selects nothing and `one`
+raises; without the NULL in the list it selects row 2 only (row 1: `c = 'it''s'` unknown, row 3:
+OR group unknown), and `one` returns it -/
+example : run false "SELECT id FROM t".toList none (some [("id".toList, true)]) exCall .one exTable
+    = .error (.py .valueError) := by
+  decide +kernel
+
+example : (run false "SELECT id FROM t".toList none (some [("id".toList, true)])
+      { exCall with args := exCall.args.take 2 ++
+          [some (.triple "b".toList "!=".toList (.list [.text "x'; DROP TABLE t;--".toList]))] } .one exTable).map
+    (fun r => r.map fun rows => rows.map fun c => c.get? "id".toList) = .ok (some [some (.int 2)]) := by
+  decide +kernel
+
+example : (run false "SELECT id FROM t".toList none (some [("id".toList, true)])
+      { args := [some (.triple "a".toList ">=".toList (.scalar (.int 1)))], kwargs := [] } .list exTable).map
+    (fun r => r.map fun rows => rows.map fun c => c.get? "id".toList) = .ok (some [some (.int 2), some (.int 1)]) := by
   decide +kernel
 
 end examples
